@@ -4,10 +4,29 @@ package entry
 
 // Contracts for contract-based deductive verification (govc). Comment-only file.
 
+// ---------------------------------------------------------------------------
+// C47: relay entry submission queue
+
 //@ func calculateSubmissionQueueIndex
 //@   property C47
 //@   requires groupSize >= 1 && groupSize <= 65535
-//@   requires memberIndex >= 1 && memberIndex <= groupSize
-//@   requires firstSubmitterMemberIndex >= 1 && firstSubmitterMemberIndex <= groupSize
+//@   requires [same-index-base] (memberIndex < groupSize && firstSubmitterMemberIndex < groupSize) || (memberIndex >= 1 && memberIndex <= groupSize && firstSubmitterMemberIndex >= 1 && firstSubmitterMemberIndex <= groupSize)
 //@   ensures result >= 0 && result < groupSize
-//@   ensures result == (memberIndex + groupSize - firstSubmitterMemberIndex) % groupSize
+//@   ensures result == ite(memberIndex >= firstSubmitterMemberIndex, memberIndex - firstSubmitterMemberIndex, memberIndex + groupSize - firstSubmitterMemberIndex)
+
+//@ lemma queue-position-injective: forall i, j, f, n int :: (1 <= i && i <= n && 1 <= j && j <= n && 1 <= f && f <= n && i != j) ==> ite(i >= f, i - f, i + n - f) != ite(j >= f, j - f, j + n - f)
+//@   property C47
+
+//@ func relayEntrySubmitter.waitForSubmissionEligibility
+//@   property C47
+//@   requires groupSize >= 1 && groupSize <= 255 && res.index >= 1 && res.index <= groupSize
+//@   requires startBlockHeight <= 4611686018427387904 && blockStep >= 1 && blockStep <= 4294967295
+//@   ensures [slot-is-a-waiter] err == nil ==> @isWaiter(result0) && @waiterHeight(result0) >= startBlockHeight
+//@   ensures [slot-before-timeout] err == nil ==> @waiterHeight(result0) < startBlockHeight + groupSize * blockStep
+//@   ensures [slot-from-queue-position] err == nil ==> exists f int :: 1 <= f && f <= groupSize && @waiterHeight(result0) == startBlockHeight + ite(res.index >= f, res.index - f, res.index + groupSize - f) * blockStep
+
+//@ func relayEntrySubmitter.submitRelayEntry
+//@   property C47
+//@   requires res.index >= 1 && res.index <= @cfgGroupSize(res.chain) && startBlockHeight <= 4611686018427387904
+//@   modifies ghost.now
+//@   assert call:RelayEntryInterface.SubmitRelayEntry : @isWaiter(eligibleToSubmitWaiter) && ghost.now >= @waiterHeight(eligibleToSubmitWaiter) && @waiterHeight(eligibleToSubmitWaiter) < startBlockHeight + @cfgGroupSize(res.chain) * @cfgStep(res.chain)
